@@ -310,6 +310,14 @@ func c18Counting(c *Ctx, sx *symx.Ctx) {
 			if ssau.CallName(call) == "sync/atomic.AddInt64" && valueAddr(fn, call.Common().Args[0], "Counter") && m.delta(fn, call.Common().Args[1]) {
 				return []string{"add"}
 			}
+			// Inc written as c.Add(1): the sibling method on the same counter with the
+			// wanted delta (Add itself is checked to add its argument exactly once)
+			if sib := call.Common().StaticCallee(); sib != nil && sib != fn && sib.Name() == "Add" && ssau.FuncName(sib) == "(*"+metricsPkg+".Counter).Add" {
+				a := call.Common().Args
+				if len(a) == 2 && a[0] == ssa.Value(fn.Params[0]) && m.delta(fn, a[1]) {
+					return []string{"add"}
+				}
+			}
 			if strings.HasPrefix(ssau.CallName(call), "sync/atomic.") {
 				return []string{"other"}
 			}
